@@ -93,11 +93,13 @@ def verify(contract, scratch, tucache, bounded=0, bcase=None):
         ex.bounded = bounded
         ex.decl_assume = getattr(contract, 'domain_after', None)
         ex.domain_values = getattr(contract, 'domain_values', None)
+        ex.plain_abort = getattr(contract, 'plain_abort', False)      # the SIGINT handler itself: Display::abort is an ordinary global there
         ex.loops = contract.loops_for(ci) if hasattr(contract, 'loops_for') else contract.loops
         ex.calls = contract.calls
         ex.default_tags = set(contract.tags)
         ex.fn_returns_ref = contract.returns_ref
         ex.uf_mul = getattr(contract, 'uf_mul', False)
+        ex.uf_div = getattr(contract, 'uf_div', False)
         st = State()
         args = {}
         for i, p in enumerate(params(fn)):
